@@ -1,6 +1,7 @@
 import SkfemVerif.Model.Assembly
 import SkfemVerif.Lemmas.Np
 import SkfemVerif.Lemmas.Threads
+import Mathlib.Data.List.Nodup
 /-
 C16  Threaded assembly equals serial assembly under every schedule.
 
@@ -80,6 +81,52 @@ theorem C16_flatSlot_injective (Nv nt i j k i' j' k' : Nat)
   obtain ⟨h1, h2⟩ := mul_add_inj nt _ k _ k' hk hk' h
   obtain ⟨h3, h4⟩ := mul_add_inj Nv j i j' i' hi hi' h1
   exact ⟨h4, h3, h2⟩
+
+/-- **workers write disjoint parts**: the chunks handed to the workers are pairwise disjoint and
+    each is free of repetitions, for every thread count -/
+theorem C16_chunks_disjoint (Nu Nv n : Nat) (hn : 0 < n) :
+    (threadChunks Nu Nv n).Pairwise List.Disjoint ∧ ∀ c ∈ threadChunks Nu Nv n, c.Nodup := by
+  have h : (threadChunks Nu Nv n).flatten.Nodup := by
+    rw [threadChunks, flatten_arraySplit _ _ hn]; exact nodup_pairList Nu Nv
+  rw [List.nodup_flatten] at h
+  exact ⟨h.2, h.1⟩
+
+/-- the work list has `Nu * Nv` items -/
+theorem C16_length_pairList (Nu Nv : Nat) : (pairList Nu Nv).length = Nu * Nv := by
+  unfold pairList
+  induction Nu with
+  | zero => simp
+  | succ k ih => rw [List.range_succ, List.flatMap_append, List.length_append, ih]; simp [Nat.succ_mul]
+
+/-- `np.array_split` sizes differ by at most one (`len / n` or `len / n + 1`) -/
+theorem C16_sizes_balanced (len n : Nat) :
+    ∀ s ∈ arraySplitSizes len n, s = len / n ∨ s = len / n + 1 := by
+  intro s hs
+  simp only [arraySplitSizes, List.mem_map, List.mem_range] at hs
+  obtain ⟨i, _, rfl⟩ := hs
+  split <;> simp
+
+/-- the chunks have exactly the `np.array_split` sizes -/
+theorem C16_chunk_lengths {β : Type} (l : List β) (n : Nat) (hn : 0 < n) :
+    (arraySplit l n).map List.length = arraySplitSizes l.length n := by
+  unfold arraySplit
+  exact map_length_splitBySizes _ _ (by rw [sum_arraySplitSizes _ _ hn]; exact Nat.le_refl _)
+
+/-- **more threads than local index pairs**: every worker gets at most one pair (the surplus
+    workers get none) -/
+theorem C16_more_threads_than_pairs (Nu Nv n : Nat) (hn : Nu * Nv < n) :
+    ∀ c ∈ threadChunks Nu Nv n, c.length ≤ 1 := by
+  intro c hc
+  have hn0 : 0 < n := by omega
+  have hl := C16_chunk_lengths (pairList Nu Nv) n hn0
+  have : c.length ∈ (threadChunks Nu Nv n).map List.length := List.mem_map_of_mem hc
+  rw [threadChunks, hl, C16_length_pairList] at this
+  rcases C16_sizes_balanced _ _ _ this with h | h <;> rw [h, Nat.div_eq_of_lt hn] <;> omega
+
+/-- the workers together perform exactly `Nu * Nv` kernel invocations -/
+theorem C16_total_work (Nu Nv n : Nat) (hn : 0 < n) :
+    ((threadChunks Nu Nv n).map List.length).sum = Nu * Nv := by
+  rw [threadChunks, C16_chunk_lengths _ _ hn, sum_arraySplitSizes _ _ hn, C16_length_pairList]
 
 /-- non-vacuity: 2×3 local matrix, 4 workers -/
 example : threadChunks 2 3 4 = [[(0,0),(1,0)], [(2,0),(0,1)], [(1,1)], [(2,1)]] := by decide
